@@ -42,3 +42,7 @@ def merged(*runners):
 CHECKS["C17"] = merged(dyncheck.run, primcheck.run)
 CHECKS["C12"] = merged(lifecheck.run, dyncheck.run)
 CHECKS["C13"] = merged(lifecheck.run, dyncheck.run)
+
+import extracheck
+
+CHECKS["EXTRA"] = extracheck.run   # behaviours beyond the listed properties (not in MANIFEST)
